@@ -48,7 +48,17 @@ type FacialFeature struct {
 	MinorPoint uint8  `json:"minorPoint"`
 	X          uint16 `json:"x"`
 	Y          uint16 `json:"y"`
-	Reserved   uint8  `json:"reserved"`
+	Reserved   uint16 `json:"reserved"`
+}
+
+// feature point block as stored (ISO/IEC 19794-5:2005 5.6.1): feature type (1 byte), feature point
+// code (1 byte: major point in the high nibble, minor point in the low nibble), x (2), y (2), reserved (2)
+type facialFeatureBlock struct {
+	Type      uint8
+	PointCode uint8
+	X         uint16
+	Y         uint16
+	Reserved  uint16
 }
 
 type FacialInfo struct {
@@ -224,11 +234,12 @@ func parseFeatures(numFeatures uint32, r *bytes.Reader) ([]FacialFeature, error)
 
 	var i uint32
 	for i = 0; i < numFeatures; i++ {
-		feature := FacialFeature{}
-		if err := binary.Read(r, binary.BigEndian, &feature); err != nil {
+		block := facialFeatureBlock{}
+		if err := binary.Read(r, binary.BigEndian, &block); err != nil {
 			return nil, fmt.Errorf("[parseFeatures] binary.Read(i:%1d) error: %w", i, err)
 		}
-		out[i] = feature
+		out[i] = FacialFeature{Type: block.Type, MajorPoint: block.PointCode >> 4, MinorPoint: block.PointCode & 0x0f,
+			X: block.X, Y: block.Y, Reserved: block.Reserved}
 	}
 
 	return out, nil
